@@ -1,6 +1,7 @@
 import InToto.Driver.Util
 import InToto.Model.Record
 import InToto.Model.Verify
+import InToto.Model.Switches
 open Lean
 namespace Drv
 open InToto InToto.Record
@@ -59,7 +60,11 @@ def handleRecord (op : String) (a : Json) (q : String → Bool) : Option Json :=
     let toFS (j : Json) : InToto.Verify.FS := ((objPairs j).getD []).map fun kv => (L kv.1, L (asStr kv.2))
     let fsJ (fs : InToto.Verify.FS) : Json :=
       Json.mkObj ((InToto.sortBy (fun x y => InToto.Json.strLt x.1 y.1) fs).map fun e => (S e.1, Json.str (S e.2)))
-    let r := InToto.Verify.runStep (toFS (fld a "before_d")) (toFS (fld a "writes_d")) ((getStrs a "dels").map L)
+    -- the two recording switches select which view of the tree both snapshots show (`Verify.runStepSw`;
+    -- cases without switches carry no normalised / external views: all-false is `Verify.runStep`)
+    let r := InToto.Verify.runStepSw (getBool a "norm") (getBool a "follow")
+      (toFS (fld a "before_d")) (toFS (fld a "before_dn")) (toFS (fld a "ext_d")) (toFS (fld a "ext_dn"))
+      (toFS (fld a "writes_d")) (toFS (fld a "writes_dn")) ((getStrs a "dels").map L)
     -- the same discipline for `run` and for `record start` … `record stop`
     some (Json.mkObj [("run_materials", fsJ r.materials), ("run_products", fsJ r.products),
                       ("rec_materials", fsJ r.materials), ("rec_products", fsJ r.products)])
